@@ -13,18 +13,25 @@ META = {
     "theorems": ["C03_page_refuted", "C03_idlist_page_partial", "C03_idlist_chain_partial", "C03_handler_is_sat_partial", "C03_listing_chain_sat_partial",
                  "C03_int_iff_decimal"],
     "technique": "executable Gallina model of PreprocessSearchQuery + MetaDataKVHandler + searchTx/searchUnfiltered over a byte-ordered key list; "
-                 "Coq proofs (induction over the scanned key list) for the ID-ordered listing scan, the integer-index membership (via C05) and a "
+                 "Coq proofs (induction over the scanned key list / over the chain of pages) for the ID-ordered listing: one page, the whole cursor chain, and the "
+                 "equality of the handler's per-object check with the reference predicate for string-matcher queries; integer-index membership via C05; a "
                  "vm_compute refutation of the full statement; differential correspondence with a real meta.DB (bbolt temp files) following cursors, "
-                 "and comparison of the implementation with the declarative reference ref_search (filter, sort by (primary value, ID), page)",
+                 "comparison of the implementation with the declarative reference ref_search (filter, sort by (primary value, ID), page), and a direct tie of "
+                 "integer detection (one object per value, 900+ spellings)",
     "level_text": "partial. Proved for all inputs: (1) for ID-ordered listing queries the scan never stops early and a page is exactly the first `count` "
-                  "available entries passing the handler's per-object check, `more`/cursor exact (C03_idlist_page_partial); (2) an attribute value has an "
-                  "integer index entry iff it is an in-range optionally signed decimal (C03_int_iff_decimal, from C05_accept_exact); (3) the full-strength "
-                  "statement is false for the faithful model (C03_page_refuted: two filters on the primary attribute, [N<=20, N>=10]). NOT proved, covered by "
-                  "the correspondence check only: soundness of the early termination and seek keys for EQ / PREFIX / numeric primary filters, ordering by "
-                  "(primary value, ID) from key byte order, the equivalence of the handler's per-object predicate with the reference `sat_all`, and the "
-                  "cursor chain across pages. The model is tied to the real code on every run (every page and every cursor of every chain must be equal) and "
-                  "the implementation is compared with ref_search directly; failures inside the two listed known classes are reported as KNOWN-FINDING.",
-    "level_note": "partial: early-termination/ordering theorems for attribute-ordered queries are not proved (tie only). Modelled, not verified: bbolt as a "
+                  "available entries passing the handler's per-object check, `more`/cursor exact (C03_idlist_page_partial); (2) following the cursor (Seek + skip "
+                  "the equal key + handler) over any strictly increasing key list with any positive page size yields every such entry exactly once, in key order, "
+                  "full pages except the last, and stops (C03_idlist_chain_partial); (3) for queries without numeric matchers the handler's per-object check IS "
+                  "`available && sat_all` (C03_handler_is_sat_partial), hence C03_listing_chain_sat_partial: the pages are exactly the available objects satisfying "
+                  "all filters; (4) an attribute value has an integer index entry iff it is an in-range optionally signed decimal (C03_int_iff_decimal, from "
+                  "C05_accept_exact); (5) the full-strength statement is false for the faithful model (C03_page_refuted: two filters on the primary attribute, "
+                  "[N<=20, N>=10]). NOT proved, covered by the correspondence check only: attribute-ordered queries (requested attributes): soundness of the early "
+                  "termination and seek keys for EQ / PREFIX / numeric primary filters, ordering by (primary value, ID) from key byte order, the requested attribute "
+                  "values; the per-object check with numeric matchers; the cursor validation of PreprocessSearchQuery inside the chain. The model is tied to the real "
+                  "code on every run (every page and every cursor of every chain must be equal) and the implementation is compared with ref_search directly; failures "
+                  "inside the two listed known classes are reported as KNOWN-FINDING.",
+    "level_note": "partial: early-termination/ordering theorems for attribute-ordered queries are not proved (tie only); the chain theorem is for ID-ordered listing, one "
+                  "page size per chain, at the level of searchTx's loop. Modelled, not verified: bbolt as a "
                   "byte-ordered key list with Seek/Next; object availability is an input flag per object (C01 is another property; the harness builds objects whose "
                   "availability is decided by their own expiration / garbage mark and checks it against DB.Exists); base58 / hex / UUID codecs are parameters "
                   "of the model (Section variable), instantiated per run by tables dumped from the real libraries; searchIterationLimit = 0 (unlimited) only; "
